@@ -49,7 +49,11 @@ func verifResultSetOf(name string, vs, ws, is []any) rego.ResultSet {
 // VerifC03Report: BuildReport on result sets of symbolic size and content under
 // every report configuration.
 func VerifC03Report() {
-	nv, nw, ni := v.Choice("nv", 3), v.Choice("nw", 3), v.Choice("ni", 3)
+	per := 3
+	if v.Deep() {
+		per = 4 // thorough tier: 0..3 results per level
+	}
+	nv, nw, ni := v.Choice("nv", per), v.Choice("nw", per), v.Choice("ni", per)
 	name := v.Bytes("profileName", 2)
 	rs := verifResultSet(name, nv, nw, ni)
 	// remember what went in (BuildReport mutates the maps in place)
